@@ -1,0 +1,18 @@
+//go:build verif
+
+package cas
+
+// Contracts for the govc verifier (/verif). This file contains comments only;
+// it does not change the compiled package.
+
+// Every call suspends the clock for exactly its own duration (C11):
+// suspended(s) is the per-call ledger of Suspend minus Resume calls.
+//@ func (*suspendingDirectoryFetcher).GetDirectory
+//@   props C11
+//@   ensures balanced: suspended(df.suspendable) == 0
+//@ func (*suspendingDirectoryFetcher).GetTreeRootDirectory
+//@   props C11
+//@   ensures balanced: suspended(df.suspendable) == 0
+//@ func (*suspendingDirectoryFetcher).GetTreeChildDirectory
+//@   props C11
+//@   ensures balanced: suspended(df.suspendable) == 0
